@@ -24,6 +24,29 @@ def parser_availability(chk, fx, rule):
     chk.floor(rule, "cursor read sites in pdu::reader", n_sites, 60)
 
 
+def guard_tightness(chk, fx, rule):
+    """pdu::reader: a guard demanding a constant number of bytes demands no more than is read before the next guard on that cursor or the
+    end of the loop iteration -- an over-strict guard rejects the shortest valid encoding (a PDV without data, a last item ...)"""
+    from . import budget
+    chk.rule(rule, "every constant-size availability guard of pdu::reader (`remaining() >= N`, named constants evaluated) is exact: the N bytes are all read before "
+                   "the next guard on the cursor / the end of the loop iteration, so the shortest valid item is still accepted")
+    d = fx.crate("dicom_ul")
+    n = 0
+    for h in d["hir"]:
+        if not h["path"].startswith("dicom_ul::pdu::reader::"):
+            continue
+        short = h["path"].split("::")[-1]
+        b = budget.analyse(h, short)
+        ordn = {}
+        for g in b.guards:
+            n += 1
+            k = (g["cursor"], g["need"])
+            ordn[k] = ordn.get(k, 0) + 1
+            chk.expect(g["slack"] is None, rule, short, f"{g['cursor']}.remaining()>={g['need']}#{ordn[k]}", "all demanded bytes are read before the next guard", g["slack"],
+                       loc=f"{h['loc']['f']}:{g['line']}")
+    chk.floor(rule, "constant-size guards in pdu::reader", n, 34)
+
+
 def max_pdu(chk, fx, rule):
     """acceptor: requestor maximum length 0 means "no limit" (C28 max-pdu; C30: the release reply must be sendable)"""
     chk.rule(rule, "acceptor records the requestor's maximum PDU length as: MaxLength(0) -> MAXIMUM_PDU_SIZE, MaxLength(n) -> n.min(MAXIMUM_PDU_SIZE), absent -> DEFAULT_MAX_PDU "
